@@ -449,6 +449,9 @@ def jobs_hist(prop, tier):
         j.append(sjob('C08', 'lower5', 2, b, refact=1, vk=1, vk2=8, usepr=1, w=4, ms=4)); j.append(sjob('C08', 'tree7', 2, 1, refact=1, vk=1, vk2=0, usepr=0))
         j.append(sjob('C08', 'chain4', 2, 2, refact=1, vk=1, vk2=7, usepr=1)); j.append(sjob('C08', 'chain4', 3, 1, refact=1, vk=1, vk2=8, usepr=1, u=0.1))
         j.append(sjob('C08', 'two6', 2, b, refact=1, vk=1, vk2=8, usepr=1)); j.append(sjob('C08', 'relax6', 2, 1, refact=1, vk=1, vk2=0, usepr=1, relax=3))
+        # K16 under the happens-before race monitor (variant sr): the re-factorization writes into the L/U storage of the first call
+        for sh, P, bd, kw in (('dense4', 2, 2, dict(ms=1, vk2=8, usepr=1)), ('lower5', 2, b, dict(w=4, ms=4, vk2=8, usepr=1)), ('two6', 2, b, dict(vk2=8, usepr=1)), ('tree7', 2, 1, dict(vk2=0, usepr=0))):
+            r = sjob('C08', sh, P, bd, refact=1, vk=1, model=0, **kw); r['variant'] = 'sr'; r['cflags'] = ['-DVF_RACE']; j.append(r)
         # K17: the same inside a user workspace that serves one worker + 64k bytes (the re-factorization must report info > n or be correct)
         for k in ((0, 1, 2) if q else range(0, 8)):
             j.append(sjob('C08', 'dense4', 2, 1, refact=1, vk=1, vk2=8, usepr=1, ms=4, lwrel=k))
